@@ -40,7 +40,8 @@ Record observed := { o_outs : list (list xres); o_trace : list (nat * gate); o_c
    jobs), and what the model says about the entities: the key pair each signs with and the key pair of
    the certificate each publishes.  The `keys` of the input proper are the certificates the property
    speaks of: given directly, or `published d` of a deployment d. *)
-Record setting := { s_workers : option (list (list nat)); s_keys : list nat; s_certs : list nat }.
+Record setting := { s_workers : option (list (list nat)); s_keys : list nat; s_certs : list nat;
+                     s_src : option (list dstep) }.
 
 Definition case := (input tsig * setting * observed)%type.
 Definition c_in (c : case) : input tsig := fst (fst c).
@@ -50,7 +51,7 @@ Definition c_obs (c : case) : observed := snd c.
 Definition mk (ks : list nat) (g : list gate) (ps : list (nat * list (op tsig))) (s : list nat)
   (oo : list (list xres)) (tr : list (nat * gate)) (complete : bool) : case :=
   ({| keys := ks; gon := g; progs := ps; sched := s |},
-   {| s_workers := None; s_keys := ks; s_certs := ks |},
+   {| s_workers := None; s_keys := ks; s_certs := ks; s_src := None |},
    {| o_outs := oo; o_trace := tr; o_complete := complete; o_certs := ks |}).
 
 (* deployment d (main thread: install key pairs at paths, build entities, run jobs), OS workers ws
@@ -58,7 +59,18 @@ Definition mk (ks : list nat) (g : list gate) (ps : list (nat * list (op tsig)))
 Definition mk_pool (d : list dstep) (g : list gate) (ps : list (nat * list (op tsig))) (ws : list (list nat))
   (s : list nat) (oo : list (list xres)) (tr : list (nat * gate)) (complete : bool) (certs : list nat) : case :=
   ({| keys := published d; gon := g; progs := ps; sched := s |},
-   {| s_workers := Some ws; s_keys := deploy_keys d; s_certs := deploy_certs d |},
+   {| s_workers := Some ws; s_keys := deploy_keys d; s_certs := deploy_certs d; s_src := None |},
+   {| o_outs := oo; o_trace := tr; o_complete := complete; o_certs := certs |}).
+
+(* configuration SOURCES (dict, config_factory, Config object, python FILE loaded through load_file / config_factory /
+   config_file=): like mk_pool, but "the certificate of the entity" is no longer taken from the strict reading of the
+   script (published d): every entity must hold a certificate its OWN source accounts for (Spec.own_source over
+   Spec.accounted d; 0 = the slot has no entity), and the signatures must verify under the certificates of exactly the
+   entities that hold the caller's pair (spec_b over the certificates the entities hold) *)
+Definition mk_src (d : list dstep) (g : list gate) (ps : list (nat * list (op tsig))) (ws : list (list nat))
+  (s : list nat) (oo : list (list xres)) (tr : list (nat * gate)) (complete : bool) (certs : list nat) : case :=
+  ({| keys := certs; gon := g; progs := ps; sched := s |},
+   {| s_workers := Some ws; s_keys := deploy_keys d; s_certs := deploy_certs d; s_src := Some d |},
    {| o_outs := oo; o_trace := tr; o_complete := complete; o_certs := certs |}).
 
 Definition outs_x (ks : list nat) (st : state tsig) : list (list xres) := map (map (to_x ks)) (outs tsig st).
@@ -80,20 +92,40 @@ Definition agrees (c : case) : bool :=
   && Bool.eqb (finished tsig st) (o_complete o)
   && list_eqb Nat.eqb (s_certs (c_set c)) (o_certs o).
 
-Definition holds (c : case) : bool := spec_b tsig tverify (c_in c) (map (map x_obs) (o_outs (c_obs c))).
+Definition holds (c : case) : bool :=
+  spec_b tsig tverify (c_in c) (map (map x_obs) (o_outs (c_obs c)))
+  && match s_src (c_set c) with
+     | None => true
+     | Some d => own_source_b (accounted d) (o_certs (c_obs c))
+     end.
 
 (* finding class 1 (fixed by c928ba99): the observed results are exactly those of the old code
-   (key stored on the shared signer object) and not those of the current one *)
+   (key stored on the shared signer object) and not those of the current one.
+   finding class 2 (fixed by ca0d12ee): the entities hold exactly the certificates the OLD loader gives them (a
+   configuration file answered by the module of the same base name loaded from another directory) and not those of
+   the current one.
+   finding class 3 (open, C20-F3): the entities hold exactly the certificates the CURRENT loader gives them and the
+   script asks for a configuration file that does not exist (by c20_source_own_key the current loader can fail
+   own_source in no other way) *)
 Definition cls (c : case) : nat :=
   let o := c_obs c in let ks := s_certs (c_set c) in
   if same_outs (outs_x ks (mfinal_v0 c)) (o_outs o) && negb (same_outs (outs_x ks (mfinal c)) (o_outs o))
-  then 1 else 0.
+  then 1
+  else match s_src (c_set c) with
+       | None => 0
+       | Some d =>
+           if list_eqb Nat.eqb (deploy_certs_v0 d) (o_certs o) && negb (list_eqb Nat.eqb (deploy_certs d) (o_certs o)) then 2
+           else if list_eqb Nat.eqb (deploy_certs d) (o_certs o) && negb (files_present d) then 3
+           else 0
+       end.
 
 Definition run := run_cases agrees holds cls.
 
 Definition explain (c : case) :=
   (outs_x (s_certs (c_set c)) (mfinal c), trace (mfinal c), finished tsig (mfinal c),
-   (keys (c_in c), s_keys (c_set c), s_certs (c_set c)), outs_x (s_certs (c_set c)) (mfinal_v0 c), holds c).
+   (keys (c_in c), s_keys (c_set c), s_certs (c_set c)), outs_x (s_certs (c_set c)) (mfinal_v0 c), holds c,
+   match s_src (c_set c) with Some d => (accounted d, published d, deploy_certs_v0 d, files_present d, no_reedit d)
+                            | None => ([], [], [], true, true) end).
 
 (* Cases run with line- or bytecode-granular scheduling points (sys.settrace in the workers): those
    points are not named by the model, so only the results are compared.  By c20_complete_results the
